@@ -9,6 +9,8 @@
 (* observation o:                                                              *)
 (*   data    the N bytes of data()                                             *)
 (*   probes  <<x, y, option>> results of pixel()                               *)
+(*   iclip, iccalls  a clip area and the target calls of drawing the same      *)
+(*           image on the recording target seen through .clipped(iclip)        *)
 (*   isize   size of as_image();  icalls  the target calls of drawing          *)
 (*           Image::new(&as_image(), (0,0)) on a recording target (P_C09 call  *)
 (*           records)                                                          *)
@@ -37,4 +39,8 @@ ObsFails(fb, m, before, inside, o) ==
   \cup (IF fb.w = 0 \/ fb.h = 0 THEN {}
         ELSE IF FastSem(o.icalls, <<0, 0>>, <<fb.w, fb.h>>, exp) THEN {}
         ELSE IF SemCodes(o.icalls, <<0, 0>>, <<fb.w, fb.h>>, want) = {} THEN {} ELSE {"as_image_draw"})
+  \* ... also through a clipped target (the adapter seeks in the image's colour iterator)
+  \cup (IF fb.w = 0 \/ fb.h = 0 \/ o.iclip[3] = 0 \/ o.iclip[4] = 0 THEN {}
+        ELSE IF SemCodesClip(o.iccalls, <<0, 0>>, <<fb.w, fb.h>>, want, o.iclip) = {} /\ StreamCodes(o.iccalls) = {} THEN {}
+        ELSE {"as_image_draw_clipped"})
 =============================================================================
